@@ -163,8 +163,8 @@ func run(c Case) (pbt.Outcome, error) {
 					if e.I != int64(d) || rec.ID(e.Name, e.Tags) != timerID(op.T) {
 						errs.Addf("op %d: Record(%d) on %s delivered as %v", oi, d, timerID(op.T), e)
 					}
-					if (c.Mode == "cached") && e.Handle == 0 {
-						errs.Addf("op %d: cached reporter configured but timer was not delivered through its handle", oi)
+					if (c.Mode == "cached" || c.Mode == "both") && e.Handle == 0 {
+						errs.Addf("op %d: a cached reporter is configured (mode %s) but the timer value was not delivered through its cached handle (the cached path takes precedence over the plain one)", oi, c.Mode)
 					}
 				}
 			}
